@@ -169,7 +169,9 @@ Proof.
   unfold sync_rollback, startup_events.
   destruct (walk _ _ _ _ _ _) as [| |stamp [|]]; simpl; try done.
   destruct (put_synced_to stamp w) as [w1|] eqn:E; simpl; [|done].
-  destruct (put_synced_to_txs _ _ _ E) as [Em Eu]. unfold rollback. simpl. by rewrite Em, Eu.
+  destruct (put_synced_to_txs _ _ _ E) as [Em Eu].
+  destruct (reset_birthday_same stamp w1) as (_ & _ & Rm & Ru & _ & _).
+  unfold rollback. simpl. by rewrite Rm, Ru, Em, Eu.
 Qed.
 
 (** * 2. The projection evolves as the ledger facts of the store history *)
